@@ -196,15 +196,35 @@ func (t *tsImmTableImpl) makeTSSPFiles(m *MmsTables, name string, isOrder bool, 
 
 // use for flush tsEngine Table
 func (t *tsImmTableImpl) AddBothTSSPFiles(flushed *bool, m *MmsTables, name string, orderFiles []TSSPFile, unorderFiles []TSSPFile) {
-	var orderFs *TSSPFiles
-	var unorderFs *TSSPFiles
-	if len(orderFiles) != 0 {
-		orderFs = t.makeTSSPFiles(m, name, true, orderFiles)
+	for {
+		var orderFs *TSSPFiles
+		var unorderFs *TSSPFiles
+		if len(orderFiles) != 0 {
+			orderFs = t.makeTSSPFiles(m, name, true, orderFiles)
+		}
+		if len(unorderFiles) != 0 {
+			unorderFs = t.makeTSSPFiles(m, name, false, unorderFiles)
+		}
+		verifhook.Yield("AddBothTSSPFiles.beforeLock")
+		if t.addBothTSSPFiles(flushed, m, name, orderFs, unorderFs, orderFiles, unorderFiles) {
+			return
+		}
 	}
-	if len(unorderFiles) != 0 {
-		unorderFs = t.makeTSSPFiles(m, name, false, unorderFiles)
+}
+
+// addBothTSSPFiles appends the files while holding m.mu.RLock, after checking that the list objects are still the
+// ones registered in m.Order / m.OutOfOrder: deleteUnorderedFiles may have removed an empty out-of-order list
+// object (under m.mu.Lock) since makeTSSPFiles returned it. Returns false if the caller must fetch them again.
+func (t *tsImmTableImpl) addBothTSSPFiles(flushed *bool, m *MmsTables, name string, orderFs, unorderFs *TSSPFiles,
+	orderFiles []TSSPFile, unorderFiles []TSSPFile) bool {
+	m.mu.RLock()
+	defer m.mu.RUnlock()
+	if orderFs != nil && m.Order[name] != orderFs {
+		return false
 	}
-	verifhook.Yield("AddBothTSSPFiles.beforeLock")
+	if unorderFs != nil && m.OutOfOrder[name] != unorderFs {
+		return false
+	}
 	if orderFs != nil {
 		orderFs.lock.Lock()
 		defer orderFs.lock.Unlock()
@@ -224,6 +244,7 @@ func (t *tsImmTableImpl) AddBothTSSPFiles(flushed *bool, m *MmsTables, name stri
 	if flushed != nil {
 		*flushed = true
 	}
+	return true
 }
 
 func (t *tsImmTableImpl) AddTSSPFiles(m *MmsTables, name string, isOrder bool, files ...TSSPFile) {
